@@ -105,6 +105,8 @@ type FnCtx struct {
 	deferred []*ssa.Defer
 	curPos token.Pos
 	regions map[*ssa.Alloc]*Region
+	appendSites map[ssa.Instruction]int
+	unrollTag string // suffix making obligation names unique inside unrolled loops
 }
 
 type execError struct{ msg string }
@@ -623,7 +625,7 @@ func (fx *FnCtx) handleLoop(li *loopInfo, incoming []*Edge, rets *[]retInfo) []*
 	for _, phi := range phis {
 		entryVals[phi] = fx.phiValue(phi, hdr, incoming)
 	}
-	lname := fmt.Sprintf("loop%d", li.ord)
+	lname := fmt.Sprintf("loop%d%s", li.ord, fx.unrollTag)
 	envE := fx.loopEnv(li, stE, entryVals)
 	for _, c := range spec.Invariants {
 		cond := fx.evalBool(envE, c.Expr)
@@ -638,6 +640,7 @@ func (fx *FnCtx) handleLoop(li *loopInfo, incoming []*Edge, rets *[]retInfo) []*
 		if err != nil {
 			fx.fail("loop %d: phi %s: %v", li.ord, phi.Name(), err)
 		}
+		fx.validRefs(v, stH, reachE)
 		hv[phi] = v
 	}
 	envH := fx.loopEnv(li, stH, hv)
@@ -660,6 +663,8 @@ func (fx *FnCtx) handleLoop(li *loopInfo, incoming []*Edge, rets *[]retInfo) []*
 			backVals[phi] = fx.phiValue(phi, hdr, res.backs)
 		}
 		envB := fx.loopEnv(li, stB, backVals)
+		fx.runGhost(fmt.Sprintf("loop %d back", li.ord), stB, envB)
+		envB.st = stB
 		for _, c := range spec.Invariants {
 			cond := fx.evalBool(envB, c.Expr)
 			fx.addObl(fx.prefix+":"+lname+"."+c.Label+"/pres", "invariant-pres", reachB, cond, c.Props, c, "loop invariant preserved: "+c.Src)
@@ -686,6 +691,49 @@ func phiName(phi *ssa.Phi) string {
 		return phi.Comment
 	}
 	return phi.Name()
+}
+
+// validRefs assumes Go's memory-safety invariant for a value produced by havoc:
+// references and array ids are below the allocation counter; slices are well-formed.
+func (fx *FnCtx) validRefs(v Value, st *State, pc *Term) {
+	tc := fx.tc
+	if v.P != nil {
+		if v.P.Kind == PObj {
+			fx.assume(Implies(pc, tc.IdxLt(v.P.Ref, st.NAlloc)))
+		}
+		return
+	}
+	if v.Fn != nil || v.T == nil {
+		return
+	}
+	lay := tc.Layout(v.T)
+	for i, lf := range lay.Leaves {
+		if lf.Sort.Kind == SArray || i >= len(v.L) {
+			continue
+		}
+		switch lf.Kind {
+		case "id", "ref":
+			fx.assume(Implies(pc, tc.IdxLt(v.L[i], st.NAlloc)))
+		}
+	}
+	fx.sliceShape(v, v.T, 0, pc)
+}
+
+// sliceShape: 0 <= len <= cap, sizes bounded, nil slices have zero capacity.
+func (fx *FnCtx) sliceShape(v Value, t types.Type, off int, pc *Term) {
+	tc := fx.tc
+	big62 := tc.IdxNum(1 << 62)
+	switch u := t.Underlying().(type) {
+	case *types.Slice:
+		id, o, ln, cp := v.L[off], v.L[off+1], v.L[off+2], v.L[off+3]
+		fx.assume(Implies(pc, And(tc.IdxLe(ln, cp), tc.IdxLe(tc.IdxAdd(o, cp), big62), tc.IdxLe(o, big62), tc.IdxLe(cp, big62),
+			Implies(Eq(id, tc.IdxNum(0)), Eq(cp, tc.IdxNum(0))))))
+	case *types.Struct:
+		for i := 0; i < u.NumFields(); i++ {
+			fo, _ := tc.fieldRange(u, i)
+			fx.sliceShape(v, u.Field(i).Type(), off+fo, pc)
+		}
+	}
 }
 
 // havocLike returns a value of fresh symbols shaped like v.
@@ -752,10 +800,13 @@ func constTripCount(li *loopInfo) (int, bool) {
 func (fx *FnCtx) unrollLoop(li *loopInfo, spec *LoopSpec, incoming []*Edge, rets *[]retInfo) []*Edge {
 	var exits []*Edge
 	inc := incoming
+	saveTag := fx.unrollTag
+	defer func() { fx.unrollTag = saveTag }()
 	for it := 0; it <= spec.Unroll; it++ {
 		if len(inc) == 0 {
 			break
 		}
+		fx.unrollTag = fmt.Sprintf("%s@%d", saveTag, it)
 		res := fx.runRegion(li, li.header, inc, rets)
 		exits = append(exits, res.exits...)
 		inc = res.backs
